@@ -49,6 +49,7 @@ type c05signer struct {
 }
 
 const c05dp2 = "https://certificates.trustedservices.intel.com/IntelSGXRootCA-mirror.der"
+const c05dpUpper = "HTTPS://CERTIFICATES.TRUSTEDSERVICES.INTEL.COM/IntelSGXRootCA.der"
 
 // c05Shapes: serial-number shapes of the four certificates a CRL can name (leaf, intermediate,
 // TCB-Info signer, QE-Identity signer): as the generator derives them, with a zero top nibble,
@@ -103,6 +104,8 @@ func c05Env(shape string, serials [4]*big.Int) *c05env {
 	rootDP := map[string]*x509.Certificate{
 		"none": world.MakeCert(world.CertSpec{CN: world.CNRoot, IsCA: true, Key: pki.RootKey, MaxPathLen: 1, NoCRLDP: true}, nil, pki.RootKey),
 		"two":  world.MakeCert(world.CertSpec{CN: world.CNRoot, IsCA: true, Key: pki.RootKey, MaxPathLen: 1, CRLDP: []string{world.RootCRLURL, dp2}}, nil, pki.RootKey),
+		// the first point's URL written with an upper-case scheme and host (a URL is the same URL)
+		"upper": world.MakeCert(world.CertSpec{CN: world.CNRoot, IsCA: true, Key: pki.RootKey, MaxPathLen: 1, CRLDP: []string{c05dpUpper, dp2}}, nil, pki.RootKey),
 	}
 	leafSN, interSN, tcbSN, qeSN := pki.Leaf.SerialNumber, pki.Inter.SerialNumber, pki.Tcb.SerialNumber, tcb2.SerialNumber
 	unrelated := big.NewInt(0x77777777)
@@ -165,7 +168,7 @@ func runC05(r *mc.Run) {
 	}
 	const dp2 = c05dp2
 	endpoints := []string{"ok", "error", "empty", "garbage", "pem", "other-crl", "F-crl", "truncated"}
-	dps := []string{"one", "none", "two:ok,ok", "two:bad,ok", "two:ok,bad", "two:bad,bad"}
+	dps := []string{"one", "none", "two:ok,ok", "two:bad,ok", "two:ok,bad", "two:bad,bad", "upper:as-chosen,clean-mirror"}
 	bound := 3
 	if r.Thorough() {
 		bound = 4
@@ -277,6 +280,11 @@ func runC05(r *mc.Run) {
 				g.Responses[world.URLQeIdentity] = world.Response{Header: map[string][]string{world.HdrQeIdentity: {world.IssuerChainHeader(tcb2, rootDP["none"])}}, Body: g.Responses[world.URLQeIdentity].Body}
 				g.Responses[world.RootCRLURL] = rootResp
 				dpBenign = false
+			case "upper:as-chosen,clean-mirror":
+				// the first point (upper-case URL) serves the Root CA CRL of this world, the mirror an older, clean list
+				g.Responses[world.URLQeIdentity] = world.Response{Header: map[string][]string{world.HdrQeIdentity: {world.IssuerChainHeader(tcb2, rootDP["upper"])}}, Body: g.Responses[world.URLQeIdentity].Body}
+				g.Responses[c05dpUpper] = rootResp
+				g.Responses[dp2] = world.Response{Body: world.MakeCRL(world.CRLSpec{Issuer: pki.Root, Signer: pki.RootKey})}
 			default:
 				g.Responses[world.URLQeIdentity] = world.Response{Header: map[string][]string{world.HdrQeIdentity: {world.IssuerChainHeader(tcb2, rootDP["two"])}}, Body: g.Responses[world.URLQeIdentity].Body}
 				g.Responses[world.RootCRLURL], g.Responses[dp2] = rootResp, rootResp
@@ -325,7 +333,11 @@ func runC05(r *mc.Run) {
 			case "none":
 			default:
 				// the first distribution point that answers with a parseable CRL is the one obtained
-				for _, u := range []string{world.RootCRLURL, dp2} {
+				points := []string{world.RootCRLURL, dp2}
+				if dps[dp] == "upper:as-chosen,clean-mirror" {
+					points = []string{c05dpUpper, dp2}
+				}
+				for _, u := range points {
 					resp := g.Responses[u]
 					if resp.Err != nil {
 						continue
